@@ -259,7 +259,10 @@ def run_check(pid, tier, seed, work, t0):
     for name, ql, tl in cfg["mc"]:
         if (ql, tl)[ti] == 0:
             continue        # configuration used in the other tier only
-        r = run_mc(name, work, level=(ql, tl)[ti], tier=tier)
+        lvl = (ql, tl)[ti]
+        if name == "core" and tier == "thorough" and os.environ.get("VERIF_DEEP"):
+            lvl = 6          # 1.7 M states, about half an hour
+        r = run_mc(name, work, level=lvl, tier=tier, timeout=7200)
         if not r["ok"]:
             raise Machinery("TLC reports an error in configuration %s of the specification itself:\n%s"
                             % (name, r.get("tail", "")))
